@@ -100,6 +100,10 @@ enum Op {
     /// grant_role / revoke_role called directly by an ordinary account naming itself as caller and
     /// signing for itself (no timelocked operation involved)
     DirectRole { grant: bool, role: Role, caller: Who },
+    /// probe on a rebuilt copy: 2000000 ledgers pass without a call (role entries are extended by 90
+    /// days = 1555200 ledgers); roles, admin, minimum delay and the stored state of every operation
+    /// (Done stays Done, scheduled stays scheduled with the same ready ledger) must read the same
+    IdleProbe,
 }
 
 #[derive(Clone, Copy, Debug, PartialEq, Eq, PartialOrd, Ord, Hash)]
@@ -236,6 +240,7 @@ impl Tlc {
                 envx::advance(e, *k);
                 true
             }
+            Op::IdleProbe => false,
             Op::DirectRole { grant, role, caller } => {
                 // grant: to the stranger X; revoke: from the proposer P
                 let (f, account) = if *grant { ("grant_role", i.x.clone()) } else { ("revoke_role", i.p.clone()) };
@@ -473,6 +478,7 @@ impl World for Tlc {
         }
         v.push(Op::Advance(1));
         v.push(Op::Advance(2));
+        v.push(Op::IdleProbe);
         for grant in [true, false] {
             for role in if th { vec![Role::Proposer, Role::Canceller, Role::Executor] } else { vec![Role::Proposer, Role::Canceller] } {
                 for caller in if self.with_executor { vec![Who::P, Who::X, Who::E] } else { vec![Who::P, Who::X] } {
@@ -521,6 +527,7 @@ impl World for Tlc {
             Op::Cancel { .. } => "cancel".into(),
             Op::ScheduleUnsigned { .. } | Op::CancelUnsigned { .. } => "schedule/cancel-without-authorization".into(),
             Op::Advance(_) => "advance".into(),
+            Op::IdleProbe => "idle-probe".into(),
             Op::DirectRole { .. } => "direct-role-management".into(),
             Op::Admin { sig, .. } => match sig {
                 Sig::NoEntry => "admin-call(no-entry)".into(),
@@ -555,6 +562,14 @@ impl World for Tlc {
                 seen.push((o, id));
             }
         }
+        if matches!(op, Op::IdleProbe) {
+            let copy = cx.rebuild();
+            envx::advance(&copy.e, 2_000_000);
+            let o = self.observe(&copy)?;
+            ensure!(o == *m, "state-survives-idle", "2000000 ledgers without any call changed the controller's state:\n     before {:?}\n     after  {:?}", m, o);
+            cx.stats.count("idle-probes", 1);
+            return Ok(false);
+        }
         let ok = self.exec(i, op);
         if !ok {
             return Ok(false);
@@ -570,6 +585,7 @@ impl World for Tlc {
         let mut x = pre.clone();
         match op {
             Op::Advance(_) => {}
+            Op::IdleProbe => unreachable!(),
             Op::Schedule { op: o, delay, by } => {
                 ensure!(pre.proposers.contains(by), "schedule-role", "{:?} scheduled without the proposer role", by);
                 ensure!(*delay >= pre.min_delay, "schedule-delay", "scheduled with delay {} < minimum {}", delay, pre.min_delay);
@@ -719,6 +735,7 @@ fn main() {
                         "admin-call(two-contexts-empty)",
                     ],
                 );
+                rep.require_counter(&["idle-probes"]);
             }
         },
     );
